@@ -43,6 +43,26 @@ CHECKS["C02"] = (
     "DESIGN.md 6 (C02)",
 )
 
+CHECKS["C08"] = (
+    "fault_enumeration",
+    "exhaustive fault enumeration on the real readers: every cut point of every accepted input (bytes and stream) and every read() call x {short-by-one, empty, OSError} (thorough: all pairs), oracle from the reference model's data-bit mask",
+    "For every definition of <=2 fields over the wide alphabet (thorough: + <=3 over the core alphabet, long-run family), [EOF] tails and every "
+    "stand-alone scalar/array type, both endiannesses/layouts/readers and deviation-bounded accepted inputs: all prefixes and all single "
+    "read-call faults are injected. A cut at or before the last data-carrying byte must raise EOFError; a short read withholding a data byte "
+    "must raise; OSError must propagate; anything returned must equal the fault-free value; afterwards the same types parse the full "
+    "input exactly as before (no residue). Hangs are violations (watchdog).",
+    "DESIGN.md 5.3, 6 (C08)",
+)
+CHECKS["C09"] = (
+    "model_checking",
+    "bounded-exhaustive enumeration of definitions x inputs x start offsets x junk fillings x stream kinds x call forms x read histories against the reference model",
+    "Every definition of <=2 fields over the wide alphabet (+[EOF] tails; thorough adds depth 3 and the long-run family) is parsed at 8 start "
+    "offsets (aligned ones in aligned mode) with two different junk fillings before and after the payload, through BytesIO, a minimal "
+    "read/seek/tell stream and BufferedReader, through 11 call forms over bytes/bytearray/memoryview/streams, and in histories of up to 3 "
+    "consecutive reads on one stream: value = model decode of the payload alone, tell() = p + size.",
+    "DESIGN.md 6 (C09)",
+)
+
 NOT_APPLICABLE = {}
 
 
